@@ -91,7 +91,10 @@ def gen_list(rng):
     return ", ".join(parts) + ("," if rng.chance(1, 4) else "")
 
 
-KEYWORD_EXPRS = {"break", "continue", "return"}   # complete expressions that `Ident::parse_any` also reads as an identifier
+# complete expressions that `Ident::parse_any` also reads as an identifier; and the reserved `_`, which proc_macro2 presents as an
+# identifier token: it can name no field (no bound, no pass-through follows from it) and `format_args!` refuses it as an expression,
+# so whether it "counts as a field reference" is unobservable (thorough-tier token mutation, round 7)
+KEYWORD_EXPRS = {"break", "continue", "return", "_"}
 
 
 def norm_args(fields_args):
